@@ -1,3 +1,534 @@
-import CopVerif.Model.GaussCond
+import CopVerif.Real.Schur
+/-!
+# C12 — Conditional sampling fixes the given columns and follows the conditional law
+
+Property theorems only.  Every statement is about the executable model
+`CopVerif.Model.GaussCond` (`CopVerif/Model/GaussCond.lean`) — the code the driver runs at `Float`
+against the real `GaussianMultivariate.sample(n, conditions)` on every check.  Labels are any type
+with decidable equality, any number `d` of training columns, any `n`, any condition set.
+
+The model has two independent switches (`Variant.labelling`, `Variant.truth`), each with an
+as-found and a repaired setting; `Variant.asFound` / `Variant.repaired` set both.  The tie decides
+on every run which setting of each switch the real code refines.
+
+* the statements that are FALSE of the code as found are proved as `…_counterexample` next to the
+  `…_partial` that does hold, and in full for the repaired setting;
+* `np.linalg.inv`, `Φ`, `Φ⁻¹∘clip∘F_c`, the marginals' quantile functions, the order used by
+  `Index.difference` and `np.random.multivariate_normal` are parameters; `inv` carries the
+  hypothesis that it returns the inverse (`hinv`), `le` that it is a total pre-order;
+* binary64 effects are not covered (tie: `|Δ| ≤ 1e-10·scale` at `Float`).
+-/
 namespace CopVerif.Props.C12
+open CopVerif CopVerif.Model.GaussCond CopVerif.GaussCond Matrix
+
+section anyCarrier
+variable {ι α : Type} [DecidableEq ι] [Add α] [Sub α] [Mul α] [NumFns α]
+
+/-! ## the conditioned columns are fixed; schema of the output -/
+
+/-- Whenever `sample(n, conditions)` returns (either variant, any container, any `d`, `n`, condition
+    set with distinct keys): the output has all training columns in training order, every column has
+    `n` rows, and every conditioned training column is `replicate n value` — the caller's ORIGINAL
+    value, not its normal score.  (`hrng`: `multivariate_normal(·, ·, size=n)` returns `n` rows.) -/
+theorem cond_columns_fixed (v : Variant) (inv : List (List α) → List (List α)) (le : ι → ι → Bool)
+    (score ppf : ι → α → α) (phi : α → α) (rng : List α → List (List α) → ℕ → List (List α))
+    (S : Corr ι α) (n : ℕ) (c : Conditions ι α) (hrng : ∀ mean cov, (rng mean cov n).length = n)
+    (hk : c.keys.Nodup) {out : List (ι × List α)}
+    (h : sample v inv le score ppf phi rng S n c = .ok out) :
+    out.map Prod.fst = S.labels ∧ (∀ q ∈ out, q.2.length = n) ∧
+      ∀ k x, (k, x) ∈ c.items → k ∈ S.labels → (k, List.replicate n x) ∈ out := by
+  simp only [sample, sampleEff] at h
+  cases hp : samplePlan v inv le score S c with
+  | error e => simp [hp] at h
+  | ok p =>
+    simp only [hp, Except.ok.injEq] at h
+    subst h
+    -- the plan's column list comes from the loop
+    have hcols : ∃ ps, planCols v c S.labels = .ok ps ∧ p.cols = ps := by
+      simp only [samplePlan] at hp
+      cases h1 : normalConditions v S.labels score c with
+      | error e => simp [h1] at hp
+      | ok nc =>
+        cases h2 : condDist inv le S nc with
+        | error e => simp [h1, h2] at hp
+        | ok d =>
+          cases h3 : planCols v c S.labels with
+          | error e => simp [h1, h2, h3] at hp
+          | ok ps =>
+            simp only [h1, h2, h3, Except.ok.injEq] at hp
+            exact ⟨ps, rfl, by rw [← hp]⟩
+    obtain ⟨ps, hps, hpc⟩ := hcols
+    obtain ⟨hfst, hplan⟩ := planCols_spec hps
+    refine ⟨?_, ?_, ?_⟩
+    · simp only [evalPlan, List.map_map, hpc]
+      rw [← hfst]; rfl
+    · intro q hq
+      simp only [evalPlan, List.mem_map] at hq
+      obtain ⟨r, _, rfl⟩ := hq
+      cases r.2 with
+      | fixed x => simp [evalCol]
+      | draw l => simp [evalCol, drawCol, hrng]
+    · intro k x hkx hkl
+      have hkk : k ∈ c.keys := List.mem_map_of_mem (f := Prod.fst) hkx
+      have : k ∈ ps.map Prod.fst := by rw [hfst]; exact hkl
+      obtain ⟨q, hq, hqk⟩ := List.mem_map.1 this
+      have hcp := hplan q hq
+      rcases (colPlan_of_truthy hcp).1 (by rw [hqk]; exact hkk) with ⟨x', hl, hfx⟩ | ⟨hf, _⟩
+      · have hl2 := lookup_eq_some_of_mem hk hkx
+        rw [hqk, hl2] at hl
+        cases hl
+        simp only [evalPlan, List.mem_map, hpc]
+        exact ⟨q, hq, by rw [hfx, hqk]; rfl⟩
+      · rw [truthy_false hf] at hkx
+        simp at hkx
+
+/-- Non-vacuity of `cond_columns_fixed` (and the positive container clause for a `dict`): inside the
+    property's quantifier — distinct training columns, distinct keys forming a non-empty proper subset
+    — `sample` returns, for a `dict` in either variant and for any container once the truth test is
+    repaired. -/
+theorem sample_returns (v : Variant) (inv : List (List α) → List (List α)) (le : ι → ι → Bool)
+    (score ppf : ι → α → α) (phi : α → α) (rng : List α → List (List α) → ℕ → List (List α))
+    (S : Corr ι α) (n : ℕ) (c : Conditions ι α) (hw : WellFormed S.labels c)
+    (hv : v.truth = .isNotNone ∨ c.kind = .dict) :
+    ∃ out, sample v inv le score ppf phi rng S n c = .ok out := by
+  -- normal_conditions
+  have hnc : ∃ nc, normalConditions v S.labels score c = .ok nc := by
+    unfold normalConditions
+    simp only [walkedScores_ne_nil (score := score) hw, Bool.false_eq_true, if_false]
+    cases v.labelling with
+    | callerOrder => simp [walkedScores_length (score := score) hw]
+    | walked => exact ⟨_, rfl⟩
+  obtain ⟨nc, hnc⟩ := hnc
+  -- columns1 is not empty: the call is a proper subset
+  have hcd : ∃ d, condDist inv le S nc = .ok d := by
+    obtain ⟨col, hcol, hnot⟩ := hw.proper
+    have hmem : col ∈ columns1 le S.labels (nc.map Prod.fst) :=
+      mem_columns1.2 ⟨hcol, fun hh => hnot (normalConditions_labels_sub hnc col hh)⟩
+    have hne : (columns1 le S.labels (nc.map Prod.fst)).isEmpty = false := by
+      cases hc1 : columns1 le S.labels (nc.map Prod.fst) with
+      | nil => rw [hc1] at hmem; simp at hmem
+      | cons _ _ => rfl
+    simp only [condDist, hne, Bool.false_eq_true, if_false]
+    exact ⟨_, rfl⟩
+  obtain ⟨d, hcd⟩ := hcd
+  -- the loop
+  have hpl : ∃ ps, planCols v c S.labels = .ok ps := by
+    apply planCols_ok_of
+    intro col _
+    have ht : truthy v c = .ok true := by
+      unfold truthy
+      rcases hv with hv | hv
+      · rw [hv]
+      · rw [hv]
+        cases v.truth with
+        | isNotNone => rfl
+        | truthValue =>
+          have := hw.nonempty
+          cases hi : c.items with
+          | nil => exact absurd hi this
+          | cons _ _ => simp
+    simp only [colPlan, ht, Bool.true_and]
+    by_cases hk : col ∈ c.keys
+    · obtain ⟨x, hx⟩ := (lookup_isSome_iff_mem_keys c.items col).2 hk
+      simp [hk, hx]
+    · simp [hk]
+  obtain ⟨ps, hpl⟩ := hpl
+  refine ⟨evalPlan n ppf phi ⟨d, ps⟩ (rng d.mean d.cov n), ?_⟩
+  simp [sample, sampleEff, samplePlan, hnc, hcd, hpl]
+
+/-- `samples[column_name]` in the loop looks a draw column up BY LABEL in a frame whose columns are
+    `columns1` (sorted): every drawn column of the plan is one of the draws' labels, so the lookup
+    never misses and the alignment does not depend on the sort. -/
+theorem draws_found_by_label (v : Variant) (inv : List (List α) → List (List α)) (le : ι → ι → Bool)
+    (score : ι → α → α) (S : Corr ι α) (c : Conditions ι α) {p : Plan ι α}
+    (h : samplePlan v inv le score S c = .ok p) :
+    ∀ q ∈ p.cols, ∀ l, q.2 = .draw l → l = q.1 ∧ l ∈ p.dist.columns := by
+  simp only [samplePlan] at h
+  cases h1 : normalConditions v S.labels score c with
+  | error e => simp [h1] at h
+  | ok nc =>
+    cases h2 : condDist inv le S nc with
+    | error e => simp [h1, h2] at h
+    | ok d =>
+      cases h3 : planCols v c S.labels with
+      | error e => simp [h1, h2, h3] at h
+      | ok ps =>
+        simp only [h1, h2, h3, Except.ok.injEq] at h
+        subst h
+        obtain ⟨hfst, hplan⟩ := planCols_spec h3
+        intro q hq l hl
+        have hq1 : q.1 ∈ S.labels := by rw [← hfst]; exact List.mem_map_of_mem (f := Prod.fst) hq
+        have hcp := hplan q hq
+        -- a drawn column is not a key (an empty dict never gets this far)
+        have hnk : q.1 ∉ c.keys := by
+          intro hk
+          rcases (colPlan_of_truthy hcp).1 hk with ⟨x, _, hfx⟩ | ⟨hf, _⟩
+          · rw [hfx] at hl; cases hl
+          · have hi := truthy_false hf
+            unfold normalConditions at h1
+            simp [walkedScores, hi] at h1
+        have hd : q.2 = .draw q.1 := (colPlan_of_truthy hcp).2 hnk
+        rw [hd] at hl
+        cases hl
+        refine ⟨rfl, ?_⟩
+        have hdc : d.columns = columns1 le S.labels (nc.map Prod.fst) := by
+          simp only [condDist] at h2
+          split at h2
+          · simp at h2
+          · simp only [Except.ok.injEq] at h2; rw [← h2]
+        rw [hdc]
+        exact mem_columns1.2 ⟨hq1, fun hh => hnk (normalConditions_labels_sub h1 _ hh)⟩
+
+/-! ## the partition -/
+
+omit [Add α] [Sub α] [Mul α] in
+/-- For every condition-label list `c2` (in particular every proper non-empty subset of the training
+    columns): `columns1` is exactly the complement of `c2` in the training columns, duplicate-free and
+    SORTED (pandas `Index.difference`), non-empty when the subset is proper; together with `c2` it is
+    a rearrangement of the training columns; and each of the four blocks `.loc[rows, cols]` holds,
+    at position `(i, j)`, exactly the entry of Σ for the labels `rows[i]`, `cols[j]`. -/
+theorem partition_exact (le : ι → ι → Bool) (htrans : ∀ a b c, le a b = true → le b c = true → le a c = true)
+    (htotal : ∀ a b, (le a b || le b a) = true) (S : Corr ι α) (c2 : List ι)
+    (hS : S.labels.Nodup) (h2 : c2.Nodup) (hsub : ∀ k ∈ c2, k ∈ S.labels) :
+    let c1 := columns1 le S.labels c2
+    (∀ a, a ∈ c1 ↔ a ∈ S.labels ∧ a ∉ c2) ∧ c1.Nodup ∧ c1.Pairwise (fun a b => le a b = true)
+      ∧ ((∃ a ∈ S.labels, a ∉ c2) → c1 ≠ []) ∧ (c1 ++ c2).Perm S.labels
+      ∧ ∀ (rows cs : List ι) (i j : ℕ) (hi : i < rows.length) (hj : j < cs.length),
+          ((S.loc rows cs).getD i []).getD j (NumFns.ofNat 0) = S.loc1 rows[i] cs[j] := by
+  intro c1
+  refine ⟨fun a => mem_columns1, columns1_nodup hS, List.pairwise_mergeSort htrans htotal _, ?_, ?_, ?_⟩
+  · rintro ⟨a, ha, hna⟩ hnil
+    have : a ∈ c1 := mem_columns1.2 ⟨ha, hna⟩
+    rw [hnil] at this
+    simp at this
+  · have hnd : (c1 ++ c2).Nodup := by
+      rw [List.nodup_append]
+      refine ⟨columns1_nodup hS, h2, ?_⟩
+      intro a ha b hb hab
+      subst hab
+      exact (mem_columns1.1 ha).2 hb
+    rw [List.perm_ext_iff_of_nodup hnd hS]
+    intro a
+    rw [List.mem_append]
+    constructor
+    · rintro (h | h)
+      · exact (mem_columns1.1 h).1
+      · exact hsub a h
+    · intro h
+      by_cases hc : a ∈ c2
+      · exact Or.inr hc
+      · exact Or.inl (mem_columns1.2 ⟨h, hc⟩)
+  · intro rows cs i j hi hj
+    simp [Corr.loc, List.getD_eq_getElem?_getD, hi, hj]
+
+/-- `_get_conditional_distribution` partitions exactly so: `columns2` are the labels of the scores it
+    was given (in that order), `columns1` the sorted complement. -/
+theorem condDist_partition (inv : List (List α) → List (List α)) (le : ι → ι → Bool) (S : Corr ι α)
+    (nc : List (ι × α)) {d : CondDist ι α} (h : condDist inv le S nc = .ok d) :
+    d.columns = columns1 le S.labels (nc.map Prod.fst)
+      ∧ d.mean = condMean inv S d.columns (nc.map Prod.fst) (nc.map Prod.snd)
+      ∧ d.cov = condCov inv S d.columns (nc.map Prod.fst) := by
+  simp only [condDist] at h
+  split at h
+  · simp at h
+  · simp only [Except.ok.injEq] at h
+    subst h
+    exact ⟨rfl, rfl, rfl⟩
+
+/-! ## which score is attached to which label -/
+
+omit [Add α] [Sub α] [Mul α] [NumFns α] in
+/-- REPAIRED labelling (scores labelled by the columns actually walked), full statement: for every
+    well-formed call, in ANY key order, every condition key gets the score of its own value under
+    its own marginal. -/
+theorem labels_aligned (t : TruthTest) (cols : List ι) (score : ι → α → α) (c : Conditions ι α)
+    (hw : WellFormed cols c) :
+    ∃ nc, normalConditions ⟨.walked, t⟩ cols score c = .ok nc ∧ Aligned score c.items nc := by
+  refine ⟨walkedScores cols score c.items, ?_, walkedScores_aligned hw⟩
+  unfold normalConditions
+  simp [walkedScores_ne_nil (score := score) hw]
+
+omit [Add α] [Sub α] [Mul α] [NumFns α] in
+/-- AS FOUND (scores re-labelled with `conditions.index`), positive direction only: IF the conditions
+    are listed in the same relative order as the training columns, every key gets its own score — the
+    result then coincides with the repaired labelling.  The hypothesis cannot be dropped:
+    `labels_misaligned_counterexample`, `labels_aligned_asFound_iff`. -/
+theorem labels_aligned_asFound_partial (t : TruthTest) (cols : List ι) (score : ι → α → α)
+    (c : Conditions ι α) (hw : WellFormed cols c) (hord : InTrainingOrder cols c.keys) :
+    ∃ nc, normalConditions ⟨.callerOrder, t⟩ cols score c = .ok nc ∧ Aligned score c.items nc
+      ∧ normalConditions ⟨.walked, t⟩ cols score c = .ok nc := by
+  have hz : c.keys.zip ((walkedScores cols score c.items).map Prod.snd) = walkedScores cols score c.items := by
+    have h1 : c.keys = (walkedScores cols score c.items).map Prod.fst := by
+      rw [walkedScores_fst]; exact hord.symm
+    conv_lhs => rw [h1]
+    exact zip_fst_snd _
+  refine ⟨walkedScores cols score c.items, ?_, walkedScores_aligned hw, ?_⟩
+  · unfold normalConditions
+    simp [walkedScores_ne_nil (score := score) hw, walkedScores_length (score := score) hw, hz]
+  · unfold normalConditions
+    simp [walkedScores_ne_nil (score := score) hw]
+
+omit [Add α] [Sub α] [Mul α] [NumFns α] in
+/-- AS FOUND, the exact characterisation: the re-labelling is right for every marginal score function
+    IF AND ONLY IF the conditions are listed in training order.  (`a ≠ b`: the carrier has two
+    different numbers.) -/
+theorem labels_aligned_asFound_iff (t : TruthTest) (cols : List ι) (c : Conditions ι α)
+    (hw : WellFormed cols c) {a b : α} (hab : a ≠ b) :
+    (∀ score : ι → α → α, ∃ nc, normalConditions ⟨.callerOrder, t⟩ cols score c = .ok nc
+        ∧ Aligned score c.items nc)
+      ↔ InTrainingOrder cols c.keys := by
+  constructor
+  · intro h
+    unfold InTrainingOrder
+    have hlen : c.keys.length = (walked cols c.keys).length :=
+      (walked_perm hw.cols_nodup hw.keys_nodup hw.keys_sub).length_eq.symm
+    apply eq_of_zip_aligned hab c.keys (walked cols c.keys) hlen
+    intro g p hp
+    obtain ⟨nc, hnc, -, hal⟩ := h (fun k _ => g k)
+    unfold normalConditions at hnc
+    simp only [walkedScores_ne_nil (score := fun k _ => g k) hw, Bool.false_eq_true, if_false,
+      walkedScores_length (score := fun k _ => g k) hw, if_true, Except.ok.injEq] at hnc
+    rw [walkedScores_const] at hnc
+    simp only [List.map_map] at hnc
+    have hp' : (p.1, p.2) ∈ nc := by
+      rw [← hnc]
+      have : (Prod.snd ∘ fun c => (c, g c)) = g := rfl
+      rw [this]
+      exact hp
+    obtain ⟨x, _, hx⟩ := hal p.1 p.2 hp'
+    exact hx
+  · intro hord score
+    obtain ⟨nc, h1, h2, _⟩ := labels_aligned_asFound_partial t cols score c hw hord
+    exact ⟨nc, h1, h2⟩
+
+end anyCarrier
+
+/-- three training columns for the counter-examples. -/
+inductive Col | a | b | c
+  deriving DecidableEq
+
+/-- AS FOUND, the full statement is FALSE: training columns `a, b, c`, conditions listed as
+    `{c: x, a: y}` ⇒ label `c` is given the score of `a` (and `a` the score of `c`), for every marginal
+    score function, container and value. -/
+theorem labels_misaligned_counterexample {α : Type} (score : Col → α → α) (kind : Container) (x y : α)
+    (t : TruthTest) :
+    normalConditions ⟨.callerOrder, t⟩ [Col.a, Col.b, Col.c] score ⟨kind, [(Col.c, x), (Col.a, y)]⟩
+      = .ok [(Col.c, score Col.a y), (Col.a, score Col.c x)]
+    ∧ normalConditions ⟨.walked, t⟩ [Col.a, Col.b, Col.c] score ⟨kind, [(Col.c, x), (Col.a, y)]⟩
+      = .ok [(Col.a, score Col.a y), (Col.c, score Col.c x)] := by
+  constructor <;> rfl
+
+/-- … and the mislabelling changes the law that is sampled: with Σ = [[1, ½, 0], [½, 1, 0], [0, 0, 1]]
+    (labels `a, b, c`), identity scores and conditions `{c: 1, a: 0}`, the conditional mean of `b`
+    handed to the sampler is `½` as found, and `0 = ½·0 + 0·1` (the Schur value) once repaired.
+    (`S22` is the identity here, so `inv` is the identity.) -/
+theorem labels_misaligned_mean_counterexample :
+    let S : Corr Col ℝ := ⟨[Col.a, Col.b, Col.c], [[1, 1/2, 0], [1/2, 1, 0], [0, 0, 1]]⟩
+    let c : Conditions Col ℝ := ⟨.dict, [(Col.c, 1), (Col.a, 0)]⟩
+    let le : Col → Col → Bool := fun p q => decide (p.ctorIdx ≤ q.ctorIdx)
+    (∃ nc d, normalConditions Variant.asFound S.labels (fun _ x => x) c = .ok nc
+        ∧ condDist id le S nc = .ok d ∧ d.columns = [Col.b] ∧ d.mean = [1/2])
+    ∧ (∃ nc d, normalConditions Variant.repaired S.labels (fun _ x => x) c = .ok nc
+        ∧ condDist id le S nc = .ok d ∧ d.columns = [Col.b] ∧ d.mean = [0]) := by
+  intro S c le
+  have hc1 : columns1 le S.labels [Col.c, Col.a] = [Col.b] := by simp [columns1, S]
+  have hc2 : columns1 le S.labels [Col.a, Col.c] = [Col.b] := by simp [columns1, S]
+  have e1 : (Col.a == Col.b) = false := by decide
+  have e2 : (Col.a == Col.c) = false := by decide
+  have e3 : (Col.b == Col.c) = false := by decide
+  constructor
+  · refine ⟨[(Col.c, 0), (Col.a, 1)], ⟨condMean id S [Col.b] [Col.c, Col.a] [0, 1], condCov id S [Col.b] [Col.c, Col.a], [Col.b]⟩,
+      rfl, ?_, rfl, ?_⟩
+    · simp only [condDist, List.map_cons, List.map_nil, hc1]; rfl
+    · simp [condMean, gain, affineMean, matMul, table, sumRange, entry, Corr.loc, Corr.loc1, S,
+        List.range_succ, List.idxOf, List.findIdx, List.findIdx.go, e1, e2, e3]
+  · refine ⟨[(Col.a, 0), (Col.c, 1)], ⟨condMean id S [Col.b] [Col.a, Col.c] [0, 1], condCov id S [Col.b] [Col.a, Col.c], [Col.b]⟩,
+      rfl, ?_, rfl, ?_⟩
+    · simp only [condDist, List.map_cons, List.map_nil, hc2]; rfl
+    · simp [condMean, gain, affineMean, matMul, table, sumRange, entry, Corr.loc, Corr.loc1, S,
+        List.range_succ, List.idxOf, List.findIdx, List.findIdx.go, e1, e2, e3]
+
+/-! ## the container clause -/
+section container
+variable {ι α : Type} [DecidableEq ι] [Add α] [Sub α] [Mul α] [NumFns α]
+
+/-- AS FOUND the container clause is FALSE: with `if conditions and …`, a `pandas.Series` makes EVERY
+    call on a fitted model (at least one training column) fail with `ValueError` — whatever the
+    labelling, values, keys or `n`. -/
+theorem series_container_counterexample (l : Labelling) (inv : List (List α) → List (List α))
+    (le : ι → ι → Bool) (score ppf : ι → α → α) (phi : α → α)
+    (rng : List α → List (List α) → ℕ → List (List α)) (S : Corr ι α) (n : ℕ) (items : List (ι × α))
+    (hd : S.labels ≠ []) :
+    sample ⟨l, .truthValue⟩ inv le score ppf phi rng S n ⟨.series, items⟩ = .error .valueError := by
+  simp only [sample, sampleEff, samplePlan]
+  cases h1 : normalConditions ⟨l, .truthValue⟩ S.labels score ⟨.series, items⟩ with
+  | error e =>
+    have : e = .valueError := by
+      unfold normalConditions at h1
+      simp only at h1
+      split at h1
+      · simp at h1; exact h1.symm
+      · cases l <;> simp only at h1
+        · split at h1
+          · simp at h1
+          · simp at h1; exact h1.symm
+        · simp at h1
+    simp [this]
+  | ok nc =>
+    cases h2 : condDist inv le S nc with
+    | error e =>
+      have : e = .valueError := by
+        simp only [condDist] at h2
+        split at h2
+        · simp at h2; exact h2.symm
+        · simp at h2
+      simp [h2, this]
+    | ok d =>
+      cases hl : S.labels with
+      | nil => exact absurd hl hd
+      | cons col rest => simp [h2, planCols, colPlan, truthy]
+
+/-- REPAIRED (`conditions is not None`): dict and Series are interchangeable — same result for the same
+    items (and by `sample_returns` that result is a table for every well-formed call). -/
+theorem series_container_repaired (l : Labelling) (inv : List (List α) → List (List α))
+    (le : ι → ι → Bool) (score ppf : ι → α → α) (phi : α → α)
+    (rng : List α → List (List α) → ℕ → List (List α)) (S : Corr ι α) (n : ℕ) (items : List (ι × α)) :
+    sample ⟨l, .isNotNone⟩ inv le score ppf phi rng S n ⟨.series, items⟩
+      = sample ⟨l, .isNotNone⟩ inv le score ppf phi rng S n ⟨.dict, items⟩ := by
+  have hpc : ∀ cols : List ι, planCols ⟨l, .isNotNone⟩ (⟨.series, items⟩ : Conditions ι α) cols
+      = planCols ⟨l, .isNotNone⟩ ⟨.dict, items⟩ cols := by
+    intro cols
+    induction cols with
+    | nil => rfl
+    | cons col rest ih => simp only [planCols, ih]; rfl
+  simp only [sample, sampleEff, samplePlan, hpc]
+  rfl
+
+/-- The caller's `conditions` object after the call is the object before the call: the model is a
+    pure function of its arguments and never writes to them (it rebinds a local name to
+    `pd.Series(conditions)`).  The dynamic check on the real object is property C20's. -/
+theorem conditions_not_modified (v : Variant) (inv : List (List α) → List (List α)) (le : ι → ι → Bool)
+    (score ppf : ι → α → α) (phi : α → α) (rng : List α → List (List α) → ℕ → List (List α))
+    (S : Corr ι α) (n : ℕ) (c : Conditions ι α) :
+    (sampleEff v inv le score ppf phi rng S n c).2 = c := rfl
+
+end container
+
+/-! ## the conditional law: Schur complement -/
+section schur
+variable {ι : Type} [DecidableEq ι]
+
+/-- The covariance handed to the sampler is symmetric whenever Σ is (and `inv` inverts `S22`). -/
+theorem schur_symm (inv : List (List ℝ) → List (List ℝ)) (le : ι → ι → Bool) (S : Corr ι ℝ)
+    (nc : List (ι × ℝ)) {d : CondDist ι ℝ} (h : condDist inv le S nc = .ok d)
+    (hS : ∀ r c, S.loc1 r c = S.loc1 c r)
+    (_hdet : IsUnit ((corrM S).submatrix (nc.map Prod.fst).get (nc.map Prod.fst).get).det)
+    (hinv : toM _ _ (inv (S.loc (nc.map Prod.fst) (nc.map Prod.fst)))
+      = ((corrM S).submatrix (nc.map Prod.fst).get (nc.map Prod.fst).get)⁻¹) :
+    (toM d.columns.length d.columns.length d.cov).IsSymm
+      ∧ ∀ i j, i < d.columns.length → j < d.columns.length → entry d.cov i j = entry d.cov j i := by
+  obtain ⟨-, -, hcov⟩ := condDist_partition inv le S nc h
+  have hsym : (toM d.columns.length d.columns.length d.cov).IsSymm := by
+    rw [hcov, toM_condCov, hinv]
+    have hsub : ∀ (e1 : Fin d.columns.length → ι) (e2 : Fin (nc.map Prod.fst).length → ι),
+        ((corrM S).submatrix e1 e2)ᵀ = (corrM S).submatrix e2 e1 := by
+      intro e1 e2; ext i j; simp [hS]
+    exact schur_isSymm _ _ _ _ (by ext i j; simp [hS]) (hsub _ _) (by ext i j; simp [hS])
+  refine ⟨hsym, fun i j hi hj => ?_⟩
+  have := hsym.apply ⟨i, hi⟩ ⟨j, hj⟩
+  simpa using this.symm
+  -- `hdet` is not used by the algebra (Mathlib's `⁻¹` is total); it is there so that `hinv` speaks of
+  -- a genuine inverse and the statement is not true for the wrong reason
+
+/-- Σ positive semi-definite and the conditioned block `S22` positive definite ⇒ the covariance
+    handed to the sampler (the Schur complement `S11 − S12 S22⁻¹ S21`) is positive semi-definite.
+    Every partition, every `d`. -/
+theorem schur_psd (inv : List (List ℝ) → List (List ℝ)) (le : ι → ι → Bool) (S : Corr ι ℝ)
+    (nc : List (ι × ℝ)) {d : CondDist ι ℝ} (h : condDist inv le S nc = .ok d)
+    (hPSD : (corrM S).PosSemidef)
+    (h22 : ((corrM S).submatrix (nc.map Prod.fst).get (nc.map Prod.fst).get).PosDef)
+    (hinv : toM _ _ (inv (S.loc (nc.map Prod.fst) (nc.map Prod.fst)))
+      = ((corrM S).submatrix (nc.map Prod.fst).get (nc.map Prod.fst).get)⁻¹) :
+    (toM d.columns.length d.columns.length d.cov).PosSemidef := by
+  obtain ⟨-, -, hcov⟩ := condDist_partition inv le S nc h
+  rw [hcov, toM_condCov, hinv]
+  exact schur_posSemidef (corrM S) hPSD _ _ h22
+
+/-- What is handed to `np.random.multivariate_normal` IS the pair
+    `μ̄ = (S12 S22⁻¹) z`, `Σ̄ = S11 − S12 S22⁻¹ S21` on the sub-matrices of Σ for the sorted
+    complement `columns1` and the condition labels, `z` the scores attached to those labels; and this
+    pair has the two algebraic properties that characterise the conditional law of a partitioned
+    normal `(X1, X2) ~ N(0, Σ)` given `X2 = z`: with `G = S12 S22⁻¹`, the residual `X1 − G X2` is
+    uncorrelated with `X2` (`S12 − G S22 = 0`) and has covariance `Σ̄`.
+
+    PARTIAL — not proved here: (i) the classical theorem itself (for jointly normal vectors
+    "uncorrelated" gives "independent", hence `X1 | X2 = z ~ N(G z, Σ̄)`), which needs Mathlib's
+    measure-theoretic Gaussian vectors; (ii) that numpy's generator draws from `N(mean, cov)`
+    (trusted base).  With the as-found labelling `z` is only correctly attached when the conditions are
+    in training order (`labels_aligned_asFound_iff`). -/
+theorem conditional_law_partial (inv : List (List ℝ) → List (List ℝ)) (le : ι → ι → Bool) (S : Corr ι ℝ)
+    (nc : List (ι × ℝ)) {d : CondDist ι ℝ} (h : condDist inv le S nc = .ok d)
+    (hdet : IsUnit ((corrM S).submatrix (nc.map Prod.fst).get (nc.map Prod.fst).get).det)
+    (hinv : toM _ _ (inv (S.loc (nc.map Prod.fst) (nc.map Prod.fst)))
+      = ((corrM S).submatrix (nc.map Prod.fst).get (nc.map Prod.fst).get)⁻¹) :
+    let c2 := nc.map Prod.fst
+    let S11 := (corrM S).submatrix d.columns.get d.columns.get
+    let S12 := (corrM S).submatrix d.columns.get c2.get
+    let S21 := (corrM S).submatrix c2.get d.columns.get
+    let S22 := (corrM S).submatrix c2.get c2.get
+    d.columns = columns1 le S.labels c2
+      ∧ toV d.columns.length d.mean = (S12 * S22⁻¹).mulVec (toV c2.length (nc.map Prod.snd))
+      ∧ toM d.columns.length d.columns.length d.cov = S11 - S12 * S22⁻¹ * S21
+      ∧ S12 - S12 * S22⁻¹ * S22 = 0
+      ∧ S11 - S12 * S22⁻¹ * S12ᵀ - S12 * (S12 * S22⁻¹)ᵀ + S12 * S22⁻¹ * S22 * (S12 * S22⁻¹)ᵀ
+          = S11 - S12 * S22⁻¹ * S12ᵀ := by
+  intro c2 S11 S12 S21 S22
+  obtain ⟨hcol, hmean, hcov⟩ := condDist_partition inv le S nc h
+  refine ⟨hcol, ?_, ?_, residual_uncorrelated S12 S22 hdet, residual_cov S11 S12 S22 hdet⟩
+  · rw [hmean, toV_condMean, hinv]
+  · rw [hcov, toM_condCov, hinv]
+
+/-- non-vacuity of the hypotheses of `schur_psd` / `schur_symm` / `conditional_law_partial`: labels
+    `a, b` with Σ = [[2, 1], [1, 1]] (= AᵀA for A = [[1, 1], [1, 0]]), condition on `b`:
+    `S22 = [1]` is positive definite, Σ is positive semi-definite, `inv = id` inverts `S22`, and the
+    model returns `Σ̄ = [2 − 1·1·1] = [1]`. -/
+example :
+    let S : Corr (Fin 2) ℝ := ⟨[0, 1], [[2, 1], [1, 1]]⟩
+    (corrM S).PosSemidef ∧ ((corrM S).submatrix [(1 : Fin 2)].get [(1 : Fin 2)].get).PosDef
+      ∧ toM 1 1 (id (S.loc [1] [1])) = ((corrM S).submatrix [(1 : Fin 2)].get [(1 : Fin 2)].get)⁻¹
+      ∧ ∃ d, condDist id (fun a b => decide (a ≤ b)) S [((1 : Fin 2), (0.3 : ℝ))] = .ok d ∧ d.cov = [[1]] := by
+  intro S
+  have hM : corrM S = (!![1, 1; 1, 0] : Matrix (Fin 2) (Fin 2) ℝ)ᴴ * !![1, 1; 1, 0] := by
+    ext i j
+    fin_cases i <;> fin_cases j <;>
+      simp [S, Corr.loc1, entry, Matrix.mul_apply, Fin.sum_univ_two, List.idxOf, List.findIdx,
+        List.findIdx.go] <;> norm_num
+  have h1 : (corrM S).submatrix [(1 : Fin 2)].get [(1 : Fin 2)].get = (1 : Matrix (Fin 1) (Fin 1) ℝ) := by
+    ext i j
+    fin_cases i; fin_cases j
+    simp [S, Corr.loc1, entry, List.idxOf, List.findIdx, List.findIdx.go]
+  refine ⟨?_, ?_, ?_, ?_⟩
+  · rw [hM]; exact Matrix.posSemidef_conjTranspose_mul_self _
+  · rw [h1]; exact Matrix.PosDef.one
+  · rw [h1, inv_one]
+    ext i j
+    fin_cases i; fin_cases j
+    simp [S, Corr.loc, Corr.loc1, entry, List.idxOf, List.findIdx, List.findIdx.go]
+  · have hc1 : columns1 (fun a b : Fin 2 => decide (a ≤ b)) S.labels [1] = [0] := by simp [columns1, S]
+    refine ⟨⟨condMean id S [0] [1] [0.3], condCov id S [0] [1], [0]⟩, ?_, ?_⟩
+    · simp only [condDist, List.map_cons, List.map_nil, hc1]; rfl
+    simp [condCov, gain, matSub, matMul, table, sumRange, entry, Corr.loc, Corr.loc1, S, List.range_succ,
+      List.idxOf, List.findIdx, List.findIdx.go]
+    norm_num
+
+end schur
+
+/-- non-vacuity of `WellFormed` (hypothesis of `sample_returns`, `labels_aligned*`): columns `a, b, c`,
+    conditions `{c: 1, a: 2}` — which is NOT in training order. -/
+example : WellFormed [Col.a, Col.b, Col.c] (⟨.dict, [(Col.c, (1 : ℝ)), (Col.a, 2)]⟩ : Conditions Col ℝ)
+    ∧ ¬ InTrainingOrder [Col.a, Col.b, Col.c] [Col.c, Col.a]
+    ∧ InTrainingOrder [Col.a, Col.b, Col.c] [Col.a, Col.c] := by
+  refine ⟨⟨by decide, by decide, by decide, by simp, ⟨Col.b, by decide, by decide⟩⟩,
+    by simp [InTrainingOrder, walked], by simp [InTrainingOrder, walked]⟩
+
 end CopVerif.Props.C12
